@@ -67,8 +67,8 @@ func init() {
 		"(reflect.rtype).Size":            ext۰reflect۰rtype۰Size,
 		"(reflect.rtype).String":          ext۰reflect۰rtype۰String,
 		// "bytes.Equal":                     ext۰bytes۰Equal,
-		"bytes.IndexByte":                 ext۰bytes۰IndexByte,
-		"fmt.Sprint":                      ext۰fmt۰Sprint,
+		// (gosym: interpreted from source) "bytes.IndexByte":                 ext۰bytes۰IndexByte,
+		// (gosym: interpreted from source) "fmt.Sprint":                      ext۰fmt۰Sprint,
 		"math.Abs":                        ext۰math۰Abs,
 		"math.Copysign":                   ext۰math۰Copysign,
 		"math.Exp":                        ext۰math۰Exp,
@@ -97,18 +97,18 @@ func init() {
 		"runtime.Goexit":                  ext۰runtime۰Goexit,
 		"runtime.Gosched":                 ext۰runtime۰Gosched,
 		"runtime.NumCPU":                  ext۰runtime۰NumCPU,
-		"sort.Float64s":                   ext۰sort۰Float64s,
-		"sort.Ints":                       ext۰sort۰Ints,
-		"sort.Strings":                    ext۰sort۰Strings,
-		"strconv.Atoi":                    ext۰strconv۰Atoi,
-		"strconv.Itoa":                    ext۰strconv۰Itoa,
+		// (gosym: interpreted from source) "sort.Float64s":                   ext۰sort۰Float64s,
+		// (gosym: interpreted from source) "sort.Ints":                       ext۰sort۰Ints,
+		// (gosym: interpreted from source) "sort.Strings":                    ext۰sort۰Strings,
+		// (gosym: interpreted from source) "strconv.Atoi":                    ext۰strconv۰Atoi,
+		// (gosym: interpreted from source) "strconv.Itoa":                    ext۰strconv۰Itoa,
 		"strconv.FormatFloat":             ext۰strconv۰FormatFloat,
-		"strings.Count":                   ext۰strings۰Count,
-		"strings.EqualFold":               ext۰strings۰EqualFold,
-		"strings.Index":                   ext۰strings۰Index,
-		"strings.IndexByte":               ext۰strings۰IndexByte,
-		"strings.Replace":                 ext۰strings۰Replace,
-		"strings.ToLower":                 ext۰strings۰ToLower,
+		// (gosym: interpreted from source) "strings.Count":                   ext۰strings۰Count,
+		// (gosym: interpreted from source) "strings.EqualFold":               ext۰strings۰EqualFold,
+		// (gosym: interpreted from source) "strings.Index":                   ext۰strings۰Index,
+		// (gosym: interpreted from source) "strings.IndexByte":               ext۰strings۰IndexByte,
+		// (gosym: interpreted from source) "strings.Replace":                 ext۰strings۰Replace,
+		// (gosym: interpreted from source) "strings.ToLower":                 ext۰strings۰ToLower,
 		"time.Sleep":                      ext۰time۰Sleep,
 		// "unicode/utf8.DecodeRuneInString": ext۰unicode۰utf8۰DecodeRuneInString,
 	} {
